@@ -138,6 +138,8 @@ func (p *Policy) GetMinSwapAmountMsat() uint64 {
 
 // NewSwapsAllowed returns the boolean value of AllowNewSwaps.
 func (p *Policy) NewSwapsAllowed() bool {
+	mu.Lock()
+	defer mu.Unlock()
 	return p.AllowNewSwaps
 }
 
@@ -164,6 +166,13 @@ func (p *Policy) IsPeerSuspicious(peer string) bool {
 // policy file changed and the runtime should use the
 // new policy.
 func (p *Policy) ReloadFile() error {
+	mu.Lock()
+	defer mu.Unlock()
+	return p.reloadFile()
+}
+
+// reloadFile reloads the policy from the policy file. The caller must hold mu.
+func (p *Policy) reloadFile() error {
 	if p.path == "" {
 		return ErrNoPolicyFile
 	}
@@ -207,7 +216,7 @@ func (p *Policy) DisableSwaps() error {
 		return err
 	}
 
-	return p.ReloadFile()
+	return p.reloadFile()
 }
 
 // EnableSwaps sets the AllowNewSwaps field to true. This persists in the
@@ -229,7 +238,7 @@ func (p *Policy) EnableSwaps() error {
 		return err
 	}
 
-	return p.ReloadFile()
+	return p.reloadFile()
 }
 
 // AddToAllowlist adds a peer to the policy file in runtime. The pubkey is
@@ -254,7 +263,7 @@ func (p *Policy) AddToAllowlist(pubkey string) error {
 	if err != nil {
 		return err
 	}
-	return p.ReloadFile()
+	return p.reloadFile()
 }
 
 // AddToSuspiciousPeerList adds a peer as a suspicious peer to the policy file
@@ -279,7 +288,7 @@ func (p *Policy) AddToSuspiciousPeerList(pubkey string) error {
 	if err != nil {
 		return err
 	}
-	return p.ReloadFile()
+	return p.reloadFile()
 }
 
 func addLineToFile(filePath, line string) error {
@@ -334,7 +343,7 @@ func (p *Policy) RemoveFromAllowlist(pubkey string) error {
 	if err != nil {
 		return err
 	}
-	return p.ReloadFile()
+	return p.reloadFile()
 }
 
 // RemoveFromSuspiciousPeerList removes the pubkey of a node from the policy
@@ -365,7 +374,7 @@ func (p *Policy) RemoveFromSuspiciousPeerList(pubkey string) error {
 	if err != nil {
 		return err
 	}
-	return p.ReloadFile()
+	return p.reloadFile()
 }
 
 func removeLineFromFile(filePath, line string) error {
